@@ -20,7 +20,7 @@ pub fn mon() -> Mon {
             "an accessor write changes the half it is called on; responses report the response half (the statement's 'value since stored directly through an accessor')",
             "Reset-EID and reserved operations are only required to leave the EID unchanged",
         ],
-        children: no_children,
+        children: rel_child_quarter,
     }
 }
 
